@@ -263,7 +263,7 @@ def shards(tier):
 def cases(shard, tier):
     if shard.get('kinds'):
         for k in KIND_REJECT:
-            for where in ('before-first', 'after-one', 'twice', 'first-of-all'):
+            for where in ('before-first', 'after-one', 'twice', 'first-of-all', 'rejected-assignment'):
                 if where == 'first-of-all' and '$ref' in str(KIND_REJECT[k][0]):
                     continue        # the rejected call is the very first call on the logical file: nothing to refer to
                 for named in (False, True):
@@ -386,7 +386,14 @@ def kind_specs(c):
     rej = S.op_add(k, 'RJ', 'X', expect='raise', **dict(bad, **sn))
     ok1 = S.op_add(k, 'OK1', 'X', **dict(good, **sn))
     ok2 = S.op_add(k, 'OK2', 'Y', **dict(good, **sn)) if k != 'frame' else None
-    if c['where'] == 'before-first':
+    if c['where'] == 'rejected-assignment':
+        # the object exists; the bad value is assigned through the public setter and must be refused without a trace
+        from mc.schema import attr_by_kw
+        key = 'encrypted' if k == 'frame' else next(iter(bad))
+        setop = {'op': 'set', 'h': 'OK1', 'attr': attr_by_kw(k, key).attr, 'part': 'value', 'value': bad[key],
+                 'expect': 'raise'}
+        full, clean = [ok1, setop] + ([ok2] if ok2 else []), [ok1] + ([ok2] if ok2 else [])
+    elif c['where'] == 'before-first':
         full, clean = [rej, ok1], [ok1]
     elif c['where'] == 'after-one':
         full, clean = [ok1, rej] + ([ok2] if ok2 else []), [ok1] + ([ok2] if ok2 else [])
